@@ -1974,6 +1974,28 @@ fn exec_in(w: &mut World, op: &str, out: &mut Out) -> String {
             }
             format!("set:{} sets:{}", a, b)
         }
+        ["metric", "wbytes", who, variant, prevseq, now, l] => {
+            // the BYTES the edge node's message is on the wire (prost `encode_to_vec` of the payload the
+            // client was handed), against `encW (payloadOf ..)` of Model/MetricWire.lean: ties `toTree`, the
+            // record -> wire-tree map the C12W theorems go through, byte for byte. Only for batches whose
+            // property sets have at most one key (a hash map's order is not reproducible).
+            let pms = p_list(l, p_pm).expect("publish metric list");
+            let prevseq: u64 = prevseq.parse().unwrap();
+            let now: u64 = now.parse().unwrap();
+            ensure_seq(w, prevseq);
+            let r = match w.e2e(who, variant, now, &pms) {
+                Ok(r) => r,
+                Err(e) => panic!("bad op {}: {}", op, e),
+            };
+            if let Some((_, p)) = r.msgs.last() {
+                w.set_edge_seq(p.seq.unwrap_or(0));
+            }
+            match r.result {
+                "ok" if r.msgs.len() == 1 => format!("ok {}", hex(&r.msgs[0].1.encode_to_vec())),
+                "ok" => format!("ok msgs={}", r.msgs.len()),
+                x => x.to_string(),
+            }
+        }
         ["metric", "e2e", who, variant, prevseq, now, l] => {
             let pms = p_list(l, p_pm).expect("publish metric list");
             let prevseq: u64 = prevseq.parse().unwrap();
@@ -2358,6 +2380,16 @@ fn e2e_case(out: &mut Out, who: &str, variant: &str, pms: &[Pm], stat: &str) {
         line(out, &format!("metric edge {} {}", now, show_pm(p)));
     }
     line(out, &format!("metric e2e {} {} {} {} {}", who, variant, prevseq, now, show_pms(pms)));
+    if pms.iter().all(|p| p.props.as_ref().map(|u| u.0.len() <= 1).unwrap_or(true)) {
+        let (prevseq, now) = with_world(|w| {
+            if !w.inner.synced {
+                w.resync();
+            }
+            (w.edge_seq(), w.tick())
+        });
+        line(out, &format!("metric wbytes {} {} {} {} {}", who, variant, prevseq, now, show_pms(pms)));
+        out.count("wire-bytes-compared");
+    }
     out.nontrivial();
     out.count(stat);
     out.count(&format!("variant:{}:{}", who, variant));
